@@ -92,6 +92,9 @@ struct Driver {
     step_base_us: Option<u64>,
     last_rename_us: Option<u64>,
     pending_rename_mark: bool,
+    /// every debounced event the model delivered (kind, paths relative to the world), for the
+    /// calibration against the real watcher
+    debounced_log: Vec<(String, Vec<String>)>,
 }
 
 fn ev(kind: EventKind, p: &Path) -> Event {
@@ -99,6 +102,46 @@ fn ev(kind: EventKind, p: &Path) -> Event {
 }
 
 impl Driver {
+    fn new(w: &World, config: CompilerConfig, steps: Vec<WStep>, compile_ms: Vec<u16>, sender: Option<tokio::sync::mpsc::Sender<WatchBatch>>) -> Driver {
+        simtime::set_now_micros(0);
+        let mut debouncer = DebounceDataInner::new(NoCache, Duration::from_millis(TIMEOUT_MS));
+        debouncer.roots = vec![
+            (config.config_location.clone(), RecursiveMode::NonRecursive),
+            (config.project_root.clone(), RecursiveMode::Recursive),
+            (config.schema.absolute_path.clone(), RecursiveMode::NonRecursive),
+        ];
+        Driver {
+            world_root: w.root.clone(),
+            config,
+            steps,
+            next_step: 0,
+            now_us: 1_000,
+            next_tick_us: TICK_US,
+            debouncer,
+            ready: VecDeque::new(),
+            sender,
+            loop_free_at_us: 0,
+            compile_ms: if compile_ms.is_empty() { vec![0] } else { compile_ms },
+            batches_processed: 0,
+            in_flight_probe: false,
+            in_flight_flush_us: 0,
+            last_mutation_us: 0,
+            mkdir_at: BTreeMap::new(),
+            cookie: 100,
+            gc_requested: false,
+            violations: vec![],
+            counters: BTreeMap::new(),
+            log: vec![],
+            finished: false,
+            folder_event_seen: false,
+            stale_categorisation: 0,
+            step_base_us: None,
+            last_rename_us: None,
+            pending_rename_mark: false,
+            debounced_log: Vec::new(),
+        }
+    }
+
     fn bump(&mut self, k: &str) {
         *self.counters.entry(k.to_string()).or_insert(0) += 1;
     }
@@ -133,6 +176,18 @@ impl Driver {
                     self.push_raw(ev(EventKind::Modify(ModifyKind::Data(DataChange::Any)), &path));
                 }
                 self.push_raw(ev(EventKind::Access(AccessKind::Close(AccessMode::Write)), &path));
+            }
+            EdOp::AtomicSave(p, s) => {
+                let target = w.abs(PATHS[*p % PATHS.len()].rel);
+                let tmp = World::temp_path_for(&target);
+                let empty = World::content_for(*p % PATHS.len(), *s).is_empty();
+                self.push_raw(ev(EventKind::Create(CreateKind::File), &tmp));
+                self.push_raw(ev(EventKind::Access(AccessKind::Open(AccessMode::Any)), &tmp));
+                if !empty {
+                    self.push_raw(ev(EventKind::Modify(ModifyKind::Data(DataChange::Any)), &tmp));
+                }
+                self.push_raw(ev(EventKind::Access(AccessKind::Close(AccessMode::Write)), &tmp));
+                self.emit_rename(tmp, target);
             }
             EdOp::Delete(p) => {
                 let path = w.abs(PATHS[*p % PATHS.len()].rel);
@@ -191,6 +246,15 @@ impl Driver {
             return;
         }
         self.bump("debounced_batches");
+        for e in &events {
+            if !matches!(e.event.kind, EventKind::Access(_)) {
+                let root = self.world_root.clone();
+                self.debounced_log.push((
+                    format!("{:?}", e.event.kind),
+                    e.event.paths.iter().map(|p| p.strip_prefix(&root).unwrap_or(p).to_string_lossy().to_string()).collect(),
+                ));
+            }
+        }
         if std::env::var("SIM_DEBUG").is_ok() {
             for e in &events {
                 eprintln!("  t={}us debounced {:?} {:?}", t, e.event.kind, e.event.paths.iter().map(|p| p.strip_prefix(&self.world_root).unwrap_or(p).to_path_buf()).collect::<Vec<_>>());
@@ -244,12 +308,12 @@ impl Driver {
         // the queue that held the rename), so nobody downstream can learn that `a` is gone. The
         // simulated editor lets the window (timeout + one tick) pass after a rename before it
         // removes or renames anything.
-        if matches!(op, EdOp::Delete(_) | EdOp::Rename(..) | EdOp::RmDirAll(_) | EdOp::RenameDir(..)) {
+        if matches!(op, EdOp::Delete(_) | EdOp::Rename(..) | EdOp::RmDirAll(_) | EdOp::RenameDir(..) | EdOp::AtomicSave(..)) {
             if let Some(t) = self.last_rename_us {
                 self.wait_until(t + (TIMEOUT_MS * 1000) + TICK_US + 5_000);
             }
         }
-        if matches!(op, EdOp::Rename(..) | EdOp::RenameDir(..)) {
+        if matches!(op, EdOp::Rename(..) | EdOp::RenameDir(..) | EdOp::AtomicSave(..)) {
             self.pending_rename_mark = true;
         }
         let (existed, children) = match op {
@@ -460,43 +524,8 @@ pub fn run(case: &WatchCase, tag: u64) -> Outcome {
         w.apply(&EdOp::Write(*p, *s));
     }
     let (config, cwd) = cx::config_for(&w);
-    simtime::set_now_micros(0);
-    let mut debouncer = DebounceDataInner::new(NoCache, Duration::from_millis(TIMEOUT_MS));
-    debouncer.roots = vec![
-        (config.config_location.clone(), RecursiveMode::NonRecursive),
-        (config.project_root.clone(), RecursiveMode::Recursive),
-        (config.schema.absolute_path.clone(), RecursiveMode::NonRecursive),
-    ];
     let (tx, rx) = tokio::sync::mpsc::channel::<WatchBatch>(64);
-    let driver = Rc::new(RefCell::new(Driver {
-        world_root: w.root.clone(),
-        config: config.clone(),
-        steps: case.steps.clone(),
-        next_step: 0,
-        now_us: 1_000,
-        next_tick_us: TICK_US,
-        debouncer,
-        ready: VecDeque::new(),
-        sender: Some(tx),
-        loop_free_at_us: 0,
-        compile_ms: if case.compile_ms.is_empty() { vec![0] } else { case.compile_ms.clone() },
-        batches_processed: 0,
-        in_flight_probe: false,
-        in_flight_flush_us: 0,
-        last_mutation_us: 0,
-        mkdir_at: BTreeMap::new(),
-        cookie: 100,
-        gc_requested: false,
-        violations: vec![],
-        counters: BTreeMap::new(),
-        log: vec![],
-        finished: false,
-        folder_event_seen: false,
-        stale_categorisation: 0,
-        step_base_us: None,
-        last_rename_us: None,
-        pending_rename_mark: false,
-    }));
+    let driver = Rc::new(RefCell::new(Driver::new(&w, config.clone(), case.steps.clone(), case.compile_ms.clone(), Some(tx))));
 
     // feed: decide the next batch and put it on the channel (or close the channel)
     fn feed(d: &mut Driver) {
@@ -606,12 +635,14 @@ pub fn generate(seed: u64) -> WatchCase {
         }
     }
     let non_source = rng.chance(1, 2);
+    let atomic_saves = rng.chance(1, 2);
     let n = rng.range(3, 22);
     let mut steps = Vec::new();
     for _ in 0..n {
         let after_ms = *rng.pick(&[0u16, 1, 3, 10, 30, 60, 90, 120, 200, 400]);
         let path = if non_source && rng.chance(1, 4) { rng.range(9, 14) as usize } else { *rng.pick(&[0usize, 1, 2, 3, 4, 5, 6, 7, 8, 15]) };
         let step = match rng.weighted(&w) {
+            0 if atomic_saves && rng.chance(1, 3) => WStep::Edit { op: EdOp::AtomicSave(path, crate::session::gen_snippet(&mut rng)), after_ms },
             0 => WStep::Edit { op: EdOp::Write(path, crate::session::gen_snippet(&mut rng)), after_ms },
             1 => WStep::Edit { op: EdOp::Delete(path), after_ms },
             2 => WStep::Edit { op: EdOp::Rename(path, *rng.pick(&[0usize, 1, 2, 3, 4, 5, 6, 7, 8, 15, 9, 14])), after_ms },
@@ -625,4 +656,108 @@ pub fn generate(seed: u64) -> WatchCase {
         steps.push(step);
     }
     WatchCase { capacity, initial, compile_ms, steps }
+}
+
+// ---------------------------------------------------------------------------
+// calibration of the event stub against the real watcher (development aid; needs real time)
+// ---------------------------------------------------------------------------
+
+/// For each scenario the same editor operations are performed (a) on a real tree watched
+/// by the REAL notify-debouncer-full 0.4 over the real inotify backend, with real sleeps, and
+/// (b) through the kernel->notify stub and the vendored debouncer queue under simulated time.
+/// The delivered events (Access events dropped, paths relative to the project) must agree.
+/// Returns (scenarios that agree, scenarios compared, report lines).
+pub fn calibrate() -> (usize, usize, Vec<String>) {
+    use notify_debouncer_full::new_debouncer;
+    type Sc = (&'static str, Vec<EdOp>, Vec<(EdOp, u64)>);
+    let scenarios: Vec<Sc> = vec![
+        ("write new file", vec![], vec![(EdOp::Write(0, 5), 0)]),
+        ("overwrite existing file", vec![EdOp::Write(0, 5)], vec![(EdOp::Write(0, 0), 0)]),
+        ("two overwrites within the window", vec![EdOp::Write(0, 5)], vec![(EdOp::Write(0, 0), 0), (EdOp::Write(0, 2), 10)]),
+        ("write empty new file", vec![], vec![(EdOp::Write(1, 14), 0)]),
+        ("create then delete within the window", vec![], vec![(EdOp::Write(1, 5), 0), (EdOp::Delete(1), 10)]),
+        ("delete file", vec![EdOp::Write(0, 5)], vec![(EdOp::Delete(0), 0)]),
+        ("delete then re-create within the window", vec![EdOp::Write(0, 5)], vec![(EdOp::Delete(0), 0), (EdOp::Write(0, 5), 10)]),
+        ("rename file in the same folder", vec![EdOp::Write(0, 5)], vec![(EdOp::Rename(0, 1), 0)]),
+        ("rename file to another folder", vec![EdOp::Write(0, 5)], vec![(EdOp::Rename(0, 2), 0)]),
+        ("modify then rename within the window", vec![EdOp::Write(0, 5)], vec![(EdOp::Write(0, 0), 0), (EdOp::Rename(0, 1), 10)]),
+        ("mkdir", vec![], vec![(EdOp::MkDir(5), 0)]),
+        ("rename folder with files", vec![EdOp::Write(0, 5), EdOp::Write(1, 3)], vec![(EdOp::RenameDir(0, 5), 0)]),
+        ("rm -r folder with files", vec![EdOp::Write(0, 5), EdOp::Write(1, 3), EdOp::Write(3, 0)], vec![(EdOp::RmDirAll(0), 0)]),
+        ("schema written in place", vec![], vec![(EdOp::WriteSchema(1), 0)]),
+        ("rename, window passes, delete", vec![EdOp::Write(0, 5)], vec![(EdOp::Rename(0, 1), 0), (EdOp::Delete(1), 300)]),
+        ("BOUNDARY rename then delete within the window", vec![EdOp::Write(0, 5)], vec![(EdOp::Rename(0, 1), 0), (EdOp::Delete(1), 10)]),
+        ("write non-source file", vec![], vec![(EdOp::Write(9, 5), 0)]),
+        ("atomic save over an existing file", vec![EdOp::Write(0, 5)], vec![(EdOp::AtomicSave(0, 2), 0)]),
+        ("atomic save of a new file", vec![], vec![(EdOp::AtomicSave(0, 2), 0)]),
+        ("overwrite then atomic save within the window", vec![EdOp::Write(0, 5)], vec![(EdOp::Write(0, 0), 0), (EdOp::AtomicSave(0, 2), 10)]),
+    ];
+    let mut report = Vec::new();
+    let mut agree = 0;
+    let total = scenarios.len();
+    for (i, (name, setup, ops)) in scenarios.into_iter().enumerate() {
+        // ---- real watcher ----
+        let w = World::create(0xca11b000 + i as u64);
+        for d in [0usize, 1, 2, 3] {
+            let _ = std::fs::create_dir_all(w.abs(DIRS[d]));
+        }
+        for op in &setup {
+            w.apply(op);
+        }
+        let (config, _cwd) = cx::config_for(&w);
+        let (tx, rx) = std::sync::mpsc::channel();
+        let mut deb = new_debouncer(Duration::from_millis(TIMEOUT_MS), None, tx).expect("debouncer");
+        deb.watch(&config.config_location, RecursiveMode::NonRecursive).expect("watch");
+        deb.watch(&config.project_root, RecursiveMode::Recursive).expect("watch");
+        deb.watch(&config.schema.absolute_path, RecursiveMode::NonRecursive).expect("watch");
+        std::thread::sleep(Duration::from_millis(150));
+        for (op, gap) in &ops {
+            std::thread::sleep(Duration::from_millis(*gap));
+            w.apply(op);
+        }
+        std::thread::sleep(Duration::from_millis(600));
+        let mut real: Vec<(String, Vec<String>)> = Vec::new();
+        while let Ok(res) = rx.try_recv() {
+            if let Ok(events) = res {
+                for e in events {
+                    if !matches!(e.event.kind, EventKind::Access(_)) {
+                        real.push((format!("{:?}", e.event.kind), e.event.paths.iter().map(|p| p.strip_prefix(&w.root).unwrap_or(p).to_string_lossy().to_string()).collect()));
+                    }
+                }
+            }
+        }
+        drop(deb);
+        let _ = std::env::set_current_dir("/");
+        w.destroy();
+        // ---- stub + vendored queue ----
+        let w2 = World::create(0xca11b000 + i as u64);
+        for d in [0usize, 1, 2, 3] {
+            let _ = std::fs::create_dir_all(w2.abs(DIRS[d]));
+        }
+        for op in &setup {
+            w2.apply(op);
+        }
+        let (config2, _cwd) = cx::config_for(&w2);
+        let mut d = Driver::new(&w2, config2, vec![], vec![0], None);
+        // the calibration compares what the editor really did: the model's own waiting rules
+        // (after mkdir, after rename) are part of the generator, not of the stub
+        for (op, gap) in &ops {
+            let t = d.now_us + gap * 1000;
+            d.wait_until(t);
+            d.last_rename_us = None;
+            d.mkdir_at.clear();
+            d.do_edit(op);
+        }
+        let t = d.now_us + 600_000;
+        d.wait_until(t);
+        let model = d.debounced_log.clone();
+        let _ = std::env::set_current_dir("/");
+        w2.destroy();
+        let ok = real == model;
+        if ok {
+            agree += 1;
+        }
+        report.push(format!("{} {name}: real={real:?} model={model:?}", if ok { "AGREE  " } else { "DIFFER " }));
+    }
+    (agree, total, report)
 }
